@@ -103,14 +103,14 @@ package rr
 //@   loop 0 invariant 0 <= i && i <= n1 && len(SH1) == n1
 //@   loop 0 invariant forall(k, 0, i, SH1[k] == pow(real(k+1)/x4, 2.5))
 //@   loop 1 invariant 1 <= i && i <= n1 && len(UH1) == n1 && len(SH1) == n1
-//@   loop 1 invariant [C15.uh1] forall(k, 0, i, UH1[k] == gr4jSS1(real(k+1), x4) - gr4jSS1(real(k), x4))
+//@   loop 1 invariant [C15.uh1,C10.uh1] forall(k, 0, i, UH1[k] == gr4jSS1(real(k+1), x4) - gr4jSS1(real(k), x4))
 //@   loop 1 invariant forall(k, 0, n1, SH1[k] == gr4jSS1(real(k+1), x4))
 //@   loop 2 invariant 0 <= i && len(SH2) == n2 && real(i) <= x4 && i <= n2 && len(SH1) == n1 && len(UH1) == n1
 //@   loop 2 invariant forall(k, 0, i, SH2[k] == gr4jSS2(real(k+1), x4))
 //@   loop 3 invariant 0 <= i && i <= n2 && len(SH2) == n2 && real(i+1) > x4
-//@   loop 3 invariant [C15.sh2] forall(k, 0, min(i, n2-1), SH2[k] == gr4jSS2(real(k+1), x4))
+//@   loop 3 invariant [C15.sh2,C10.sh2] forall(k, 0, min(i, n2-1), SH2[k] == gr4jSS2(real(k+1), x4))
 //@   loop 4 invariant 1 <= i && i <= n2 && len(UH2) == n2 && len(SH2) == n2
-//@   loop 4 invariant [C15.uh2] forall(k, 0, i, UH2[k] == gr4jSS2(real(k+1), x4) - gr4jSS2(real(k), x4))
+//@   loop 4 invariant [C15.uh2,C10.uh2] forall(k, 0, i, UH2[k] == gr4jSS2(real(k+1), x4) - gr4jSS2(real(k), x4))
 //@   loop 4 invariant forall(k, 0, n2, SH2[k] == gr4jSS2(real(k+1), x4))
 //@   loop 5 invariant 0 <= day && day <= nDays && len(UH1) == n1 && len(UH2) == n2
 //@   loop 5 invariant implies(day < nDays, rainfall.at(day) >= 0 && pet.at(day) >= 0)
